@@ -146,6 +146,26 @@ def run(rep, tier):
     stats = sites_to_obligations(rep, rh, sites, rows)
     rep.info("bounds_check_site_stats", stats)
 
+    # R02.p the way to the bounds check: the effective address (register + displacement, packet base + immediate
+    # [+ register]) is computed by steps that cannot panic, for any register value - otherwise an address the check
+    # would refuse makes the interpreter panic (overflow checks on) instead of returning Err
+    rp = rep.rule("R02.p", "arithmetic on register values on the way to an access cannot panic (the refusal is the bounds check's Err, for every address)", floor=2)
+    sites_i, reach_i = inv.run(["EbpfVmMbuff::execute_program"])
+    regop = re.compile(r"<\[u64; \d+\]>\[")
+    seen = [s for s in sites_i if s.desc and regop.search(s.desc)]
+    arith = [s for s in seen if re.match(r"^(precond:[^<]*<-)*(Overflow|DivisionByZero|RemainderByZero)", s.desc)]
+    frame = [s for s in arith if re.search(r"<\[u64; \d+\]>\[10\],[^,]*Stack(UsageType|Frame|Usage)::", s.desc)]
+    bad = [s for s in arith if s not in frame and s.status not in ("proven", "lifted")]
+    rep.ob(rp, "address-arith", not bad,
+           "no open overflow / division site with a register value as operand between the dispatch of an instruction and its bounds check "
+           "(%d panic sites from the interpreter entry, %d with a register operand, %d of them the r10 frame adjustment of call/exit)" % (len(sites_i), len(seen), len(frame)),
+           expected="wrapping arithmetic (or a proved-safe step) for every address computed from a register",
+           found=sorted({"%s: %s at %s" % (s.fn, (s.desc or "")[:160], s.line) for s in bad})[:6] or "none",
+           where=bad[0].line if bad else None)
+    rep.ob(rp, "register-operands-recognised", bool(seen),
+           "the inventory names register-file elements in its descriptors (positive control of the operand pattern)",
+           expected="at least one site with a register-file operand", found=len(seen))
+
     # R02.g the regions handed to the bounds check, and how allowed ranges get registered
     rg = rep.rule("R02.g", "every bounds check is handed the four regions themselves (metadata buffer, packet, the whole stack, the registered ranges); registering a range stores it unchanged", floor=5)
     bad, nchk = [], 0
